@@ -579,7 +579,13 @@ func (f *frame) applyContract(fc *FuncC, pkg *types.Package, pnames, rnames []st
 		if !f.eng().clauseActive(e) || e.Kind == "panics" {
 			continue
 		}
-		f.assume(st, f.transBool(e.Expr, penv))
+		// clauses that speak about the callee's ghosts or locals are internal to
+		// its proof and not visible to callers
+		if fact, ok := f.tryTransBool(e.Expr, penv); ok {
+			f.assume(st, fact)
+		} else {
+			vc.note("callee clause not exported (mentions callee-internal names): " + fc.Ref + ": " + e.Text)
+		}
 	}
 	if fc.Kind == "extern" {
 		vc.note("assumed contract (extern): " + fc.Ref)
@@ -1033,4 +1039,17 @@ func (f *frame) inlineClosure(mc *ssa.MakeClosure, args []TV, st *bstate, label 
 	merged := sub.mergeStates(fn.Blocks[0], ins)
 	*st = *merged
 	f.locals = append(f.locals, sub.locals...)
+}
+
+func (f *frame) tryTransBool(e CE, env *Env) (res string, ok bool) {
+	defer func() {
+		if r := recover(); r != nil {
+			if ce, isC := r.(cerr); isC && strings.Contains(string(ce), "unresolved name") {
+				ok = false
+				return
+			}
+			panic(r)
+		}
+	}()
+	return f.transBool(e, env), true
 }
